@@ -72,20 +72,39 @@ class EvProjector(Projector):
             tk[r["name"]] = r["status"]
         return {"wf": w["status"], "st": st, "tk": tk}
 
+    dense = False      # True: the store also holds events of ANOTHER workflow; this workflow's events are reported with
+                       # their rank among its own events (the global sequence numbers have gaps then)
+
     def event_rows(self, after: int = 0) -> list[list]:
         out = []
-        for r in self.c.execute("SELECT sequence, event_type, entity_type, entity_id, data FROM events "
-                                "WHERE sequence > ? ORDER BY sequence", (after,)):
+        if self.dense:
+            rows = self.c.execute("SELECT sequence, event_type, entity_type, entity_id, data FROM events "
+                                  "WHERE workflow_id = ? ORDER BY sequence", (self.wf_id,)).fetchall()
+            rows = [(k, r) for k, r in enumerate(rows, start=1) if k > after]
+        else:
+            rows = [(r["sequence"], r) for r in self.c.execute(
+                "SELECT sequence, event_type, entity_type, entity_id, data FROM events WHERE sequence > ? ORDER BY sequence",
+                (after,))]
+        for k, r in rows:
             try:
                 d = json.loads(r["data"] or "{}")
             except Exception:
                 d = {}
-            out.append([r["sequence"], r["event_type"], self.ent(r["entity_type"], r["entity_id"]),
-                        d.get("status") or ""])
+            out.append([k, r["event_type"], self.ent(r["entity_type"], r["entity_id"]), d.get("status") or ""])
         return out
 
     def event_count(self) -> int:
+        if self.dense:
+            return self.c.execute("SELECT COUNT(*) FROM events WHERE workflow_id = ?", (self.wf_id,)).fetchone()[0]
         return self.c.execute("SELECT COUNT(*) FROM events").fetchone()[0]
+
+    def raw_as_of(self, k: int) -> int:
+        """A global sequence number 'as of' which exactly the first k events of this workflow exist: the one just before
+        its (k+1)-th event (so that events of other workflows lie in between), or the table's last one."""
+        own = [r[0] for r in self.c.execute("SELECT sequence FROM events WHERE workflow_id = ? ORDER BY sequence", (self.wf_id,))]
+        if k < len(own):
+            return own[k] - 1
+        return self.c.execute("SELECT COALESCE(MAX(sequence), 0) FROM events").fetchone()[0]
 
     def marks(self) -> int:
         return self.c.execute("SELECT COUNT(*) FROM processed_messages").fetchone()[0]
@@ -142,6 +161,7 @@ class EvRun(Run):
         super().__init__(prog, tag, events=True, keep=keep)
         self.faults = dict(faults or {})
         self.threaded = bool(self.faults.get("threaded"))     # every delivery on a fresh worker thread (driver.Run.deliver)
+        self.foreign = bool(self.faults.get("foreign"))       # events of ANOTHER workflow are appended to the same store
         self.cur_h = ""
         self.n_append = 0
         self.n_append_txn = 0
@@ -182,7 +202,11 @@ class EvRun(Run):
         with store.transaction(queue) as txn:
             txn.push_message(StartWorkflow(execution_type=wf.type.value, execution_id=wf.id))
         self.proj = EvProjector(self.raw, self.wf_id)
+        self.proj.dense = self.foreign
         self.boot()      # creates the event tables (quiet), configures recorder + bus, subscribes
+        if self.foreign:
+            self._foreign_event()
+            self._foreign_event()
         self.seen_marks = self.proj.marks()
         self.quiet = False
         self.emit({"e": "init", "prog": prog_header(self.prog)})
@@ -205,6 +229,8 @@ class EvRun(Run):
             inner = h.handle
 
             def handle(message, _inner=inner, _mt=mt.__name__):
+                if run.foreign:
+                    run._foreign_event()
                 run.cur_h = _mt
                 run.emit({"e": "hbegin", "h": _mt, "ent": run._msg_ent(message),
                           "ms": getattr(getattr(message, "status", None), "name", "") or ""})
@@ -214,6 +240,16 @@ class EvRun(Run):
                     run.cur_h = ""
 
             h.handle = handle  # type: ignore[method-assign]
+
+    def _foreign_event(self) -> None:
+        """Another workflow (the decoy) shares the event store: one event of it, appended between two handlers through
+        a connection of the harness (own commit, no engine transaction is open here)."""
+        self.n_foreign = getattr(self, "n_foreign", 0) + 1
+        typ = ("stage.started", "stage.completed", "task.completed")[self.n_foreign % 3]
+        self.raw.execute("INSERT INTO events (event_id, event_type, timestamp, entity_type, entity_id, workflow_id, version, "
+                         "data, correlation_id) VALUES (?, ?, '2000-01-01T00:00:00+00:00', ?, ?, 'A-decoy', 1, ?, 'decoy')",
+                         (f"decoy-{self.n_foreign}", typ, typ.split(".")[0], f"decoy-{self.n_foreign % 2}",
+                          json.dumps({"status": "SUCCEEDED"})))
 
     def _msg_ent(self, message) -> str:
         tid = getattr(message, "task_id", None)
@@ -329,7 +365,11 @@ class EvRun(Run):
                 self._raise_next = (InjectedFault if f[1] == "perm" else InjectedTimeout)("injected after event append")
 
     def _on_pub(self, event) -> None:
-        row = [event.sequence, event.event_type.value, self.proj.ent(event.entity_type.value, event.entity_id),
+        seq = event.sequence
+        if self.foreign and seq:      # rank among this workflow's events (see EvProjector.dense)
+            seq = self.raw.execute("SELECT COUNT(*) FROM events WHERE workflow_id = ? AND sequence <= ?",
+                                   (self.wf_id, seq)).fetchone()[0]
+        row = [seq, event.event_type.value, self.proj.ent(event.entity_type.value, event.entity_id),
                (event.data or {}).get("status") or ""]
         self.bus_log.append(row)
         self.emit({"e": "pub", "ev": ev_rec(row)})
@@ -388,7 +428,8 @@ class EvRun(Run):
         q = self.quiet
         self.quiet = True
         try:
-            state = EventReplayer(self.event_store).rebuild_workflow_state(self.wf_id, as_of_sequence=as_of)
+            raw = as_of if (as_of is None or not self.foreign) else self.proj.raw_as_of(as_of)
+            state = EventReplayer(self.event_store).rebuild_workflow_state(self.wf_id, as_of_sequence=raw)
         finally:
             self.quiet = q
         v = self._view(state)
@@ -405,15 +446,16 @@ class EvRun(Run):
         self.quiet = True
         try:
             plain = EventReplayer(self.event_store)
-            base = plain.rebuild_workflow_state(self.wf_id, as_of_sequence=p)
+            R = (lambda n: n if (n is None or not self.foreign) else self.proj.raw_as_of(n))
+            base = plain.rebuild_workflow_state(self.wf_id, as_of_sequence=R(p))
             snaps = SnapshotStore(self.event_store)
-            snaps.create_workflow_snapshot(base, self.wf_id, version=version, sequence=p)
+            snaps.create_workflow_snapshot(base, self.wf_id, version=version, sequence=R(p))
             rows = self.proj.snapshots()
             results = []
             snap_rep = EventReplayer(self.event_store, snapshot_store=snaps)
             for n in as_ofs:
-                got = snap_rep.rebuild_workflow_state(self.wf_id, as_of_sequence=n)
-                ref = plain.rebuild_workflow_state(self.wf_id, as_of_sequence=n)
+                got = snap_rep.rebuild_workflow_state(self.wf_id, as_of_sequence=R(n))
+                ref = plain.rebuild_workflow_state(self.wf_id, as_of_sequence=R(n))
                 results.append((n, got, ref))
         finally:
             self.quiet = q
@@ -908,8 +950,11 @@ def trace_jobs(pid: str, tier: str, seed: int, refs: dict[str, dict], core_: lis
         for p in core_ + extra_:
             obs = {"prefixes": True, "snapshots": "all" if thorough else "some", "seed": seed}
             seeds = [rng.randrange(1, 10 ** 6) for _ in range(nsched)]
-            for grp in chunks(seeds, 5):
-                jobs.append({"kind": "schedule", "prog": p, "seeds": grp, "observe": obs, "opts": {"p_withhold": 0.15}})
+            for gi, grp in enumerate(chunks(seeds, 5)):
+                # every other group: the event store is shared with another workflow (global sequence numbers with gaps)
+                o = {"p_withhold": 0.15, "faults": {"foreign": True}} if gi % 2 == 0 else {"p_withhold": 0.15}
+                jobs.append({"kind": "schedule", "prog": p, "seeds": grp, "observe": obs, "opts": o})
+            jobs.append({"kind": "fifo", "prog": p, "faults": [{"foreign": True}], "observe": obs})
             steps = max(4, refs[p["name"]]["meta"]["commits"] // 4)
             cseeds = [rng.randrange(1, 10 ** 6) for _ in range(nsched // 2)]
             for grp in chunks(cseeds, 5):
